@@ -54,7 +54,17 @@ RULE = ("streams: rules = the ENCODER RULES configured in latex_encoding.py (kee
         "ONLY character whose encoding is markup: c alone, x c y glued, c between blanks, c as a word between words, c doubled, tripled, "
         "repeated with a blank, and two DIFFERENT such characters and nothing else (glued both ways, separated by a blank), through encode "
         "(default options; x c y also under the four other option combinations, in the quick tier one of them per character) then decode, in a field, as a NameParts word and in an "
-        "@string: quick = every layout for main and one layout (rotating with the character and the seed) for wide, thorough = every layout and option for both. distinct = "
+        "@string: quick = every layout for main and one layout (rotating with the character and the seed) for wide, thorough = every layout and option for both; "
+        "coincide / coincide-default (appended last, props/c18_coincide.py) = libraries in which a text (whole field value, NameParts word at any of the four "
+        "parts, @string value) OCCURS A SECOND TIME IN ANOTHER ROLE: as the key of an @string block (incl. its own, incl. a key defined twice), an entry key, a "
+        "field name, an entry type, another text value, a metadata key or value, a word the library reserves or emits (selfref), the other occurrence in the "
+        "same block / a block before / after / 12-40 blocks away / both sides, the text ranging over identifiers and over keys holding & ~ _ % # every other key "
+        "punctuation character and accented letters, bounded-exhaustive over (role x carrier x place) plus `soup` libraries whose every key, name, type, value "
+        "and metadata come from one pool of 3-5 texts, some built from the caller's own classes: coincide = stub converters, judged like the wrapper stream "
+        "(oracle: converted text, exact converter calls in order, error containment; Coq wrapper model where no user class occurs); coincide-default (ORACLE "
+        "ONLY) = default converters under all five encoder and eight decoder option sets, in-place and copy mode, enc / dec / enc,dec / dec,enc: scope and "
+        "types, EVERY visited text converted exactly as the same text standing alone in a one-field control library whose names differ from it, and "
+        "decode(encode(.)) = identity on the blocks within the third party's reach. distinct = "
         "distinct (stream, input); non-trivial = some visited text is changed by the converter or fails")
 TRUSTED = ["the encoder RULES of latex_encoding.py are modelled (Model/LatexRules.v, op 121); pylatexenc's default conversion of one "
            "character enters that model as an oracle (in the proofs: an arbitrary function enc_char; in the correspondence: a table "
@@ -592,6 +602,9 @@ def generate(rng, tier):
     # the encoder rules of latex_encoding.py against Model/LatexRules.v (op 121), appended last (props/c18_rules.py)
     from props import c18_rules
     cases.extend(c18_rules.generate(rng, quick))
+    # coincidences between a text and a key / name / type / value / metadata of the same library, appended last (props/c18_coincide.py)
+    from props import c18_coincide
+    cases.extend(c18_coincide.generate(rng, quick))
     return cases
 
 
@@ -787,6 +800,9 @@ def impl(case):
     if case["input"]["kind"] == "rules":
         from props import c18_rules
         return c18_rules.impl(case)
+    if case["input"]["kind"] == "coincide":
+        from props import c18_coincide
+        return c18_coincide.impl(case)
     return {"wrapper": impl_wrapper, "options": impl_options, "roundtrip": impl_roundtrip,
             "emptymsg": impl_emptymsg, "userdefault": impl_userdefault}[case["input"]["kind"]](case)
 
@@ -959,7 +975,10 @@ def impl_wrapper(case):
             views.append([block_view(o) for o in outs])
         return lib
     r = implutil.guarded(run)
-    new_tags = class_tags(specs) if case.get("stream") in ("userclass", "positions") else []
+    new_tags = class_tags(specs) if case.get("stream") in ("userclass", "positions", "coincide") else []
+    if case.get("stream") == "coincide":
+        from props import c18_coincide
+        new_tags = ["coincide:stub:" + ",".join("enc" if k == 0 else "dec" for k in mws)] + c18_coincide.tags(specs) + new_tags
     if r[0] == "exc":
         rec["sx_out"] = None if user else implutil.r_exc(r[1])
         rec["oracle"] = {"ok": False, "detail": "LaTeX middleware raised %s instead of containing the error" % r[2]}
